@@ -52,6 +52,8 @@ ASSUMPTIONS = [
     'none and cull_limit > 0, removes at least one row (possibly the one it stored); checked only in the boundary-limit cases, where the limit is at or below '
     'the volume of the empty cache; the expected per-shard limit is size_limit / shards as Python computes it',
     'single client except for the bulk-removal contention cases, where the second client only holds locks (it writes nothing)',
+    'second handles: the handles of one case are used one after the other (never at the same time); copy.copy of a DjangoCache shares its FanoutCache '
+    'and is not generated; the ledgers of the monitor are started afresh after another process wrote (its rows are judged by the limit clauses only)',
 ]
 
 POLICIES = ['least-recently-stored', 'least-recently-used', 'least-frequently-used', 'none']
@@ -1417,6 +1419,298 @@ def boundary_limit_checks(ctx, res, stats, cases):
     stats['boundary_limit_writes_at_or_over_limit'] = n_at
 
 
+# ---------------------------------------------------------------------------
+# "eviction starts only at the size limit" for EVERY handle on the cache: a handle obtained by pickle.loads(pickle.dumps(c)), copy, a
+# second construction over the directory, or unpickled in another process shows the configured limit (per shard: total / shards), and
+# writes through it below that limit evict nothing
+
+
+HANDLE_WAYS = ('pickle', 'pickle-twice', 'copy', 'reopen', 'process', 'pickle-after-reopen')
+
+
+def _shards_of(kind, obj):
+    return [obj] if kind == 'cache' else list((obj._cache if kind == 'django' else obj)._shards)
+
+
+class ShardWatch:
+    """The Monitor per shard of one handle (a Cache is its own single shard) against the limit the property promises for a shard,
+    whatever limit the handle itself reports.  mons: the monitors (ledgers) of an earlier handle on the same directory."""
+
+    def __init__(self, kind, obj, want, policy, cull_limit, stats, mons=None):
+        self.kind, self.obj, self.want = kind, obj, want
+        self.caches = _shards_of(kind, obj)
+        self.mons = mons if mons is not None else [Monitor(policy, cull_limit, want, stats) for _ in self.caches]
+        self.readings = []
+        for sh in self.caches:
+            rd = []
+            self.readings.append(rd)
+            inner = sh.volume
+
+            def volume(inner=inner, rd=rd):
+                v = inner()
+                rd.append(v)
+                return v
+            sh.volume = volume
+        self.befores = [rowdict(seqdrv.observe(sh.directory)[0]) for sh in self.caches]
+
+    def limits(self):
+        """[(shard index, size_limit attribute of the handle's shard, size_limit in the shard's Settings table)]"""
+        out = []
+        for idx, sh in enumerate(self.caches):
+            con = sqlite3.connect(os.path.join(sh.directory, 'cache.db'))
+            try:
+                ((got_db,),) = con.execute('SELECT value FROM Settings WHERE key = "size_limit"').fetchall()
+            finally:
+                con.close()
+            out.append((idx, sh.size_limit, got_db))
+        return out
+
+    def full(self, k):
+        return self.obj.make_key(k, version=None) if self.kind == 'django' else k
+
+    def shard_of(self, k):
+        if self.kind == 'cache':
+            return 0
+        fc = self.obj._cache if self.kind == 'django' else self.obj
+        return fc._hash(self.full(k)) % len(self.caches)
+
+    def begin(self):
+        for rd in self.readings:
+            del rd[:]
+
+    def step(self, op, k, now, result, wsu):
+        """After one call through the handle: the monitor clauses per shard.  Returns (hits, rows that disappeared, the addressed
+        shard read a volume below the promised limit)."""
+        hits, gone_total, below = [], 0, False
+        idx_t = self.shard_of(k)
+        for idx, sh in enumerate(self.caches):
+            after = rowdict(seqdrv.observe(sh.directory)[0])
+            gone_total += len([i for i in self.befores[idx] if i not in after])
+            rd = list(self.readings[idx])
+            post = independent_volume(sh.directory)
+            if op == 'cull':
+                out = self.mons[idx].step('cull', None, now, None, self.befores[idx], after, rd, post)
+            elif idx == idx_t:
+                out = self.mons[idx].step(op, dbkey(sh.disk, self.full(k)), now, result, self.befores[idx], after, rd, post, None, wsu)
+                below = bool(rd) and rd[-1] < self.want
+            else:
+                out = self.mons[idx].step('len', None, now, None, self.befores[idx], after, [], post)
+                out = [(('fanout_other_shard_changed' if s_ == 'read_removed' else s_), dsc) for s_, dsc in out]
+            self.befores[idx] = after
+            hits += [(s_, 'shard %d/%d: %s' % (idx, len(self.caches), dsc)) for s_, dsc in out]
+        return hits, gone_total, below
+
+
+def _handle_drive(watch, rng, clock, now, nsteps, log, info, key_tag):
+    """sets (a few with ttls) and gets through the handle, the monitor after every call; stops at the first hit"""
+    kind, obj = watch.kind, watch.obj
+    keys = [10 ** 15 + i for i in range(1, 13)] + ['%s%d' % (key_tag, i) for i in range(12)]
+    vals = [v for v in small_values() if not isinstance(v, Stream)]
+    for step in range(nsteps):
+        now += rng.choice([TICK, 0.5, 1, 1, 2])
+        clock.set(now)
+        op = 'get' if (step > 3 and rng.random() < 0.2) else 'set'
+        k = rng.choice(keys)
+        watch.begin()
+        wsu, result = 64, None
+        if op == 'set':
+            v = rng.choice(vals)
+            wsu = size_upper(v, 5)
+            ttl = rng.choice([None] * 7 + [1, 2])
+            result = obj.set(k, v, timeout=ttl) if kind == 'django' else obj.set(k, v, expire=ttl)
+            log.append((op, repr(k), now, repr(v)[:16], ttl))
+            info['writes'] += 1
+        else:
+            got = obj.get(k, default=seqdrv.SENT)
+            result = 'default' if got is seqdrv.SENT else got
+            log.append((op, repr(k), now))
+        hits, gone, below = watch.step(op, k, now, result, wsu)
+        if op == 'set' and below:
+            info['writes_below_limit'] += 1
+        if hits:
+            return hits, now
+    return [], now
+
+
+def _close_handle(kind, h):
+    try:
+        h.close()
+    except Exception:  # noqa
+        pass
+
+
+def handle_limit_case(case, d, stats=None):
+    """One Cache / FanoutCache / DjangoCache(OPTIONS) constructed with size_limit = shards * (volume(empty) + rel), a policy and a cull
+    limit, written to for a while; then a second handle is obtained in the way case['way'] names.  Decided from the behaviour alone:
+    every shard of the second handle carries size_limit / shards (attribute and Settings table; a Cache: size_limit), and the Monitor
+    clauses hold per shard -- against that promised limit -- for writes and lookups through the second handle and afterwards through
+    the first (in particular: no unexpired row disappears across a write that read a volume below the limit).  Returns (hits, info)."""
+    import copy
+    import json
+    import pickle
+    import random
+    rng = random.Random(case['seed'])
+    stats = stats if stats is not None else new_stats()
+    kind, shards, policy, cull_limit, way = case['kind'], case['shards'], case['policy'], case['cull_limit'], case['way']
+    hits, log = [], []
+    info = {'writes': 0, 'writes_below_limit': 0}
+    clock = instr.Clock(1000.0)
+    with instr.Installed(clock):
+        probe = diskcache.Cache(os.path.join(d, 'probe'))
+        v0 = probe.volume()
+        probe.close()
+        total = shards * (v0 + case['rel'])
+        info['size_limit'] = total
+        options = dict(size_limit=total, eviction_policy=policy, cull_limit=cull_limit, disk_min_file_size=8)
+        target = os.path.join(d, 'c')
+
+        def construct(given):
+            opts = options if given else {}
+            if kind == 'cache':
+                return diskcache.Cache(target, **opts)
+            if kind == 'fanout':
+                return diskcache.FanoutCache(target, shards=shards, **opts)
+            from django.conf import settings as dj_settings
+            if not dj_settings.configured:
+                dj_settings.configure()
+            from diskcache.djangocache import DjangoCache
+            return DjangoCache(target, {'SHARDS': shards, 'DATABASE_TIMEOUT': 60, 'OPTIONS': dict(opts)})
+        obj = construct(True)
+        handles = [obj]
+        want = total / shards if kind != 'cache' else total
+        try:
+            watch = ShardWatch(kind, obj, want, policy, cull_limit, stats)
+
+            def limit_hits(w, how):
+                out = []
+                for idx, attr, db in w.limits():
+                    if attr != want or db != want:
+                        out.append(('handle_limit:shard_limit', '%s(size_limit=%r%s): after %s shard %d of %d has size_limit %r (Settings table %r), '
+                                    'expected %r' % (kind, total, '' if kind == 'cache' else ', shards=%d' % shards, how, idx, len(w.caches), attr, db, want)))
+                return out[:1]
+            hits = limit_hits(watch, 'construction')
+            now = 1000.0
+            if not hits:
+                hits, now = _handle_drive(watch, rng, clock, now, case['nbefore'], log, info, 'k')
+            if not hits:
+                def derive(h, how):
+                    if how == 'pickle':
+                        return pickle.loads(pickle.dumps(h))
+                    if how == 'copy':
+                        return copy.copy(h)
+                    return construct(False)         # 'reopen': a second construction over the directory, no settings given
+                if way == 'process':
+                    # what multiprocessing does with a cache passed to a worker: the pickle is loaded in another process, which writes
+                    blob = pickle.dumps(obj)
+                    rfd, wfd = os.pipe()
+                    pid = os.fork()
+                    if pid == 0:
+                        code = 1
+                        try:
+                            os.close(rfd)
+                            h = pickle.loads(blob)
+                            w2 = ShardWatch(kind, h, want, policy, cull_limit, stats, mons=watch.mons)
+                            clog, cinfo = [], {'writes': 0, 'writes_below_limit': 0}
+                            chits = limit_hits(w2, 'pickle.loads in another process')
+                            chits += _handle_drive(w2, rng, clock, now, case['nafter'], clog, cinfo, 'p')[0]
+                            _close_handle(kind, h)
+                            os.write(wfd, json.dumps({'hits': chits, 'log': clog, 'info': cinfo}, default=repr).encode())
+                            code = 0
+                        finally:
+                            os._exit(code)
+                    os.close(wfd)
+                    data = b''
+                    while True:
+                        chunk = os.read(rfd, 65536)
+                        if not chunk:
+                            break
+                        data += chunk
+                    os.close(rfd)
+                    os.waitpid(pid, 0)
+                    if not data:
+                        hits = [('handle_limit:error', 'the process that unpickled the handle ended without a report')]
+                    else:
+                        rep = json.loads(data.decode())
+                        hits = [('handle_limit:' + s_ if not s_.startswith('handle_limit:') else s_, dsc + ' [through the handle unpickled in another process]')
+                                for s_, dsc in rep['hits']]
+                        log += [tuple(x) for x in rep['log']]
+                        for k_, v_ in rep['info'].items():
+                            info[k_] += v_
+                        now += 3 * case['nafter']
+                        watch.befores = [rowdict(seqdrv.observe(sh.directory)[0]) for sh in watch.caches]
+                        # what the other process stored is not in this process's ledgers: start new ones (rows without a ledger entry
+                        # are not judged for order or time stamps; the limit clauses apply to them all the same)
+                        watch.mons = [Monitor(policy, cull_limit, want, stats) for _ in watch.caches]
+                else:
+                    steps = {'pickle-twice': ['pickle', 'pickle'], 'pickle-after-reopen': ['reopen', 'pickle']}.get(way, [way])
+                    h = obj
+                    for how in steps:
+                        h = derive(h, how)
+                        handles.append(h)
+                    w2 = ShardWatch(kind, h, want, policy, cull_limit, stats, mons=watch.mons)
+                    hits = limit_hits(w2, ' + '.join(steps))
+                    more, now = _handle_drive(w2, rng, clock, now, case['nafter'], log, info, 'p')      # also when the limit differs: what the writes then do
+                    hits += [('handle_limit:' + s_, dsc + ' [through the handle obtained by %s]' % ' + '.join(steps)) for s_, dsc in more]
+                    watch.befores = [rowdict(seqdrv.observe(sh.directory)[0]) for sh in watch.caches]
+            if not hits:
+                # the first handle goes on: the limit stored in the directory is still the configured one
+                hits = limit_hits(watch, 'a second handle was obtained by %s and used' % way)
+            if not hits:
+                hits, now = _handle_drive(watch, rng, clock, now, max(4, case['nafter'] // 3), log, info, 'k')
+                hits = [('handle_limit:' + s_, dsc + ' [through the first handle, after another one was obtained by %s]' % way) for s_, dsc in hits]
+        finally:
+            for h in handles:
+                _close_handle(kind, h)
+    info['ops'] = log
+    return hits, info
+
+
+def handle_limit_cases(rng, quick):
+    objs = [('cache', 1), ('fanout', 2), ('fanout', 3), ('fanout', 4), ('django', 2), ('django', 3)]
+    cases = []
+    n = rng.randrange(12)
+    for kind, shards in objs:
+        for way in HANDLE_WAYS:
+            if kind == 'django' and way == 'copy':
+                continue            # copy.copy of a DjangoCache shares its FanoutCache: not another handle
+            if quick and way == 'pickle-after-reopen' and n % 2:
+                n += 1
+                continue
+            pols = POLICIES if not quick else [POLICIES[n % 3]]
+            for policy in pols:
+                for cl in (CULL_LIMITS[1:] if not quick else [[10, 1, 2][n % 3]]):
+                    cases.append({'check': 'handle_limit', 'kind': kind, 'shards': shards, 'way': way, 'policy': policy, 'cull_limit': cl,
+                                  'rel': [600, 1500, 3000][n % 3], 'nbefore': 6 if quick else 10, 'nafter': 12 if quick else 30,
+                                  'seed': rng.randrange(10 ** 6)})
+            n += 1
+    return cases
+
+
+def handle_limit_checks(ctx, res, stats, cases):
+    seen = set()
+    st = stats.setdefault('handle_limits', {'cases': 0, 'writes': 0, 'writes_below_the_limit': 0, 'ways': {}})
+    for case in cases:
+        d = ctx.scratch('c09h')
+        try:
+            hits, info = handle_limit_case(case, d, stats)
+        except Exception as e:  # noqa
+            hits, info = [('handle_limit:error', 'the case failed with %r' % (e,))], {}
+        shutil.rmtree(d, ignore_errors=True)
+        st['cases'] += 1
+        st['writes'] += info.get('writes', 0)
+        st['writes_below_the_limit'] += info.get('writes_below_limit', 0)
+        st['ways'][case['way']] = st['ways'].get(case['way'], 0) + 1
+        res.count(['handle-limit', {k: v for k, v in case.items() if k != 'seed'}, info.get('ops', [])[:6]], nontrivial=info.get('writes_below_limit', 0) > 0)
+        for sig, desc in hits:
+            if sig in seen:
+                continue
+            seen.add(sig)
+            c = dict(case)
+            c.update({'size_limit': info.get('size_limit'), 'ops': info.get('ops', [])[-40:], 'sig': sig, 'what': desc})
+            res.violations.append(fw.Violation(sig, '%s [%s(shards=%d) constructed with size_limit %r, policy %s, cull_limit %d; second handle: %s]' % (
+                desc, case['kind'], case['shards'], info.get('size_limit'), case['policy'], case['cull_limit'], case['way']), c))
+
+
 def plan_for(ctx, per_combo, length, big_every=0):
     plan = []
     j = 0
@@ -1450,7 +1744,13 @@ RULE = ('random histories of set/add/get/incr/push/touch/delete/pop/contains/cul
         'Boundary size limits: Cache, FanoutCache(shards 1-4) and DjangoCache(OPTIONS, SHARDS 2-3) CONSTRUCTED with size_limit 0, 1, 100, '
         'shards * volume(empty) and one byte either side: every shard must carry size_limit / shards, the monitor runs per shard against that '
         'limit over sets with ttls, gets and cull() calls (cull() ends at or below the limit or with the shard empty and returns the rows that '
-        'disappeared), and a set that read a volume at or above the limit (policy not none, cull_limit > 0) removes at least one row.')
+        'disappeared), and a set that read a volume at or above the limit (policy not none, cull_limit > 0) removes at least one row.  '
+        'Second handles: Cache, FanoutCache(shards 2-4) and DjangoCache(OPTIONS, SHARDS 2-3) constructed with size_limit = shards * (volume(empty) + '
+        '{600, 1500, 3000}), written to, then a second handle obtained by pickle.loads(pickle.dumps(c)), twice that, copy.copy, a second construction '
+        'over the directory without settings, that followed by a pickle round trip, or pickle.loads in a forked process: every shard of the second '
+        'handle carries size_limit / shards (attribute and Settings table), and the monitor clauses hold per shard against that limit for sets (some '
+        'with ttls) and gets through the second handle and then through the first (no unexpired row disappears across a write that read a volume '
+        'below the limit).')
 
 
 def report(res):
@@ -1485,6 +1785,8 @@ def run(ctx):
     boundary_limit_checks(ctx, res, stats, boundary_limit_cases(ctx.rng, ctx.quick))
     container_checks(ctx, res, stats, container_cases(ctx.rng, ctx.quick))
     bulk_contention_checks(ctx, res, stats, bulk_contention_cases(ctx.rng, ctx.quick))
+    import random
+    handle_limit_checks(ctx, res, stats, handle_limit_cases(random.Random('C09-handles-%d' % ctx.seed), ctx.quick))
     witnesses(res)
     if not ctx.search_mode:
         correspondence(ctx, res, stats, kept)
@@ -1518,6 +1820,8 @@ def search(ctx, broken):
     boundary_limit_checks(ctx, res, stats, boundary_limit_cases(ctx.rng, ctx.quick))
     container_checks(ctx, res, stats, container_cases(ctx.rng, ctx.quick))
     bulk_contention_checks(ctx, res, stats, bulk_contention_cases(ctx.rng, ctx.quick))
+    import random
+    handle_limit_checks(ctx, res, stats, handle_limit_cases(random.Random('C09-handles-search-%d' % ctx.seed), ctx.quick))
     witnesses(res)
     report(res)
     return res
@@ -1590,6 +1894,20 @@ def replay(payload):
             print('%s(shards=%d) constructed with size_limit=%r, policy %s, cull_limit %d: %d writes (%d at or above the limit), %d cull() calls removed %d row(s)'
                   % (case['kind'], case['shards'], info.get('size_limit'), case['policy'], case['cull_limit'], info.get('writes', 0),
                      info.get('writes_at_or_over_limit', 0), info.get('culls', 0), info.get('removed_by_cull', 0)))
+            for sig, desc in hits:
+                print('MONITOR [%s]: %s' % (sig, desc))
+            return not hits
+        finally:
+            shutil.rmtree(d, ignore_errors=True)
+    if check == 'handle_limit':
+        d = tempfile.mkdtemp(prefix='c09r-')
+        try:
+            hits, info = handle_limit_case(case, d)
+            print('%s(shards=%d) constructed with size_limit=%r, policy %s, cull_limit %d; second handle obtained by %s: %d writes (%d of them read a volume '
+                  'below the limit of their shard)' % (case['kind'], case['shards'], info.get('size_limit'), case['policy'], case['cull_limit'], case['way'],
+                                                       info.get('writes', 0), info.get('writes_below_limit', 0)))
+            for op in info.get('ops', [])[-12:]:
+                print('  ', op)
             for sig, desc in hits:
                 print('MONITOR [%s]: %s' % (sig, desc))
             return not hits
